@@ -48,8 +48,7 @@ class CFG:
         self._handler_stack: List[List[Node]] = []
         self._finally_stack: List[object] = []
         ends = self._block(fn.body, [self.entry])
-        for e in ends:
-            self._edge(e, self.exit)
+        self._connect(ends, self.exit)
 
     # -- construction ----------------------------------------------------
     def _new(self, stmt, kind) -> Node:
@@ -145,7 +144,6 @@ class CFG:
                     continue
                 for h in handlers:
                     self._edge(bn, h, 'exc')
-            self._edge(n, n, None) if False else None
             else_end = self._block(st.orelse, body_end) if st.orelse else body_end
             ends = list(else_end)
             for h, hn in zip(st.handlers, handlers):
@@ -258,7 +256,7 @@ class CFG:
         """Every path entry → b passes through a."""
         if a is b:
             return True
-        return b.id not in self.reachable(self.entry, avoid={a.id}) or b.id == self.entry.id and False
+        return b.id not in self.reachable(self.entry, avoid={a.id})
 
     def postdominates(self, a: Node, b: Node, exits: Optional[List[Node]] = None) -> bool:
         """Every path from b to a normal exit passes through a."""
@@ -267,6 +265,39 @@ class CFG:
         exits = exits or [self.exit]
         r = self.reachable(b, avoid={a.id})
         return not any(e.id in r for e in exits)
+
+    def must_facts(self, gen, kill=None, at=None):
+        """Forward must-analysis.  gen/kill: Node -> set of facts.  Returns the set of facts
+        that hold on *every* path from entry at node `at` (default: normal exit), i.e. after
+        executing all nodes before it."""
+        at = at or self.exit
+        reach = self.reachable(self.entry)
+        TOP = None
+        out = {n.id: TOP for n in self.nodes}
+        out[self.entry.id] = set(gen(self.entry) or ())
+        changed = True
+        order = [n for n in self.nodes if n.id in reach]
+        while changed:
+            changed = False
+            for n in order:
+                if n is self.entry:
+                    continue
+                ins = [out[p.id] for p in n.pred if p.id in reach and out[p.id] is not TOP]
+                if not ins:
+                    continue
+                cur = set.intersection(*ins)
+                if n is not at or True:
+                    k = kill(n) if kill else ()
+                    new = (cur - set(k or ())) | set(gen(n) or ())
+                if out[n.id] is TOP or new != out[n.id]:
+                    out[n.id] = new
+                    changed = True
+        if at.id not in reach:
+            return None  # unreachable: vacuous
+        ins = [out[p.id] for p in at.pred if p.id in reach and out[p.id] is not TOP]
+        if at is self.entry:
+            return set()
+        return set.intersection(*ins) if ins else set()
 
     def paths(self, a: Node, b: Node, limit: int = 2000) -> List[List[Node]]:
         """All simple paths a → b (bounded)."""
